@@ -25,11 +25,11 @@ pub fn property() -> Property {
             "tokio paused clock / current-thread scheduler",
         ],
         families: vec![
-            (Box::new(ShapeFam), 6_000, 150_000),
-            (Box::new(AuthFam), 3_000, 60_000),
-            (Box::new(ServerFam), 300, 6_000),
-            (Box::new(OrderFam), 2_000, 50_000),
-            (Box::new(GlueFam), 16, 300),
+            (Box::new(ShapeFam), 40_000, 320_000),
+            (Box::new(AuthFam), 20_000, 160_000),
+            (Box::new(ServerFam), 2_000, 16_000),
+            (Box::new(OrderFam), 15_000, 120_000),
+            (Box::new(GlueFam), 24, 300),
         ],
     }
 }
